@@ -521,6 +521,8 @@ class CallMixin:
                 return self.encode_str(recv, args, kwargs, p, ln)
             if name in ("format", "strip", "lower", "upper", "lstrip", "rstrip"):
                 return VStr(fresh(Str, name))
+            if name in ("startswith", "endswith", "isdigit", "isalpha", "isspace"):
+                return VBool(fresh(B, name))          # total predicates on text; their value is not modelled
             if name == "split" and len(args) == 1:
                 t = fresh(SeqStr, "split")
                 p.pc.append(z3.Length(t) >= 1)      # str.split(sep) returns at least one piece
